@@ -277,6 +277,15 @@ def run_shard(spec, ctx):
                 ctx.count('stdlib_files')
                 text = r['text']
                 judge(ctx, v, text, r.get('compiles'), r.get('compiles') and ask38(text[1:] if text.startswith('﻿') else text), f)
+        elif spec['kind'] == 'snippets_all':
+            # deterministic pass: every semantic snippet once per version
+            for text in valid.VALID_SNIPPETS:
+                r = srv.ask({'op': 'compile', 'text': text})
+                if r is None or 'fail' in r:
+                    continue
+                ctx.count('snippets_all')
+                if r.get('compiles'):
+                    judge(ctx, v, text, True, ask38(text), 'snippet')
         else:
             files = G.stdlib_files(v)[::7] + G.repo_files()
             gen = valid.candidates(rng, files, _c10._deriver(v))
@@ -317,11 +326,13 @@ def shards(tier, seed):
         if tier == 'quick':
             out.append({'kind': 'stdlib', 'version': v, 'offset': (seed + 5) % 12, 'stride': 12, 'budget_s': 100})
             out.append({'kind': 'generated', 'version': v, 'n': 2500, 'budget_s': 70})
+            out.append({'kind': 'snippets_all', 'version': v, 'budget_s': 70})
         else:
             for k in range(4):
                 out.append({'kind': 'stdlib', 'version': v, 'offset': k, 'stride': 4, 'budget_s': 3000})
             for k in range(2):
                 out.append({'kind': 'generated', 'version': v, 'n': 60000, 'budget_s': 1500})
+            out.append({'kind': 'snippets_all', 'version': v, 'budget_s': 300})
     return out
 
 
